@@ -7,7 +7,9 @@ pre-state and the argument only.  Hence (induction over the log) replaying the l
 Jumping order: a z3 lemma on the abstract rule machine (to which the real class is proved equal step by step): two
 adjacent trials of different athletes commute - both orders accepted, same complete state - for any state satisfying
 the invariant, N = 2, 3; adjacent transpositions generate every interleaving that keeps each athlete's own order.
-Bounded (labelled so): on random competition prefixes of the real class - from_actions replay, the to_matrix /
+from_actions itself is under contract for a log of ANY length (loop cut with a ghost counter: every logged action replayed
+exactly once, in order, with its own value, on one fresh instance, never leaving early).
+Bounded (labelled so): on random competition prefixes of the real class - from_actions replay (second line), the to_matrix /
 from_matrix round trip (explicit pass marks aside), `trials`, and (as a second line for the lemma) per-height
 interleavings of the athletes' trial sequences: all accepted, same cards, state and places."""
 import itertools
@@ -244,7 +246,129 @@ def unit_swap(args):
     return dict(unit='jumping-order lemma on the rule machine[N=%d]' % N, paths=1, stats={}, outcomes={}, assumptions=[], sample=sample, wall=0.0, fns=[], results=out)
 
 
+def unit_from_actions(args):
+    """from_actions against its contract, for a log of ANY length (loop cut with an invariant over a ghost counter): on a fresh
+    instance of the receiver's class every logged action is replayed exactly once, in order, with its own value (a dict as
+    keyword arguments, anything else as the single argument); the loop never leaves early; that instance is returned.
+    With log exactness and per-call determinism (the other units) this makes replay equality an induction over the log."""
+    import z3
+    from pyvc.core import ctx
+    from pyvc.instrument import instrument
+    from pyvc.values import Sym
+    hj = real_module('athlib.highjump')
+
+    class Tok(object):
+        def __init__(self, what):
+            self.what = what
+
+    class Spy(object):
+        made = []
+
+        def __init__(self):
+            self.count = 0            # python int or z3 Int: number of replayed calls
+            self.last = None
+            Spy.made.append(self)
+
+        def __getattr__(self, name):
+            # any observable of the competition being rebuilt may have any value (the replay must not depend on it)
+            if name.startswith('__'):
+                raise AttributeError(name)
+            from pyvc.values import SBool
+            return SBool(ctx().fresh('observable_' + name, 'bool'))
+
+    def s_getattr(o, name, *d):
+        if isinstance(o, Spy):
+            def rec(*a, **k):
+                o.count = o.count + 1
+                o.last = (name, a, k)
+            return rec
+        return getattr(o, name, *d)
+    st = {}
+
+    def loop_inv(n, when, loc):
+        c = ctx()
+        if when == 'break':
+            c.notes.append(('early',))
+            return
+        h = loc.get('hj')
+        ok = isinstance(h, Spy) and len(Spy.made) == 1 and h is Spy.made[0]
+        c.oblige('from_actions/replays-on-one-fresh-instance/%s' % when, bool(ok), 'invariant')
+        if not ok:
+            return
+        if when == 'entry':
+            c.oblige('from_actions/invariant(calls replayed = actions consumed)/entry', h.count == 0, 'invariant')
+        else:
+            a, v = st['item']
+            good = isinstance(h.last, tuple) and h.last[0] is a and ((h.last[1] == () and set(h.last[2]) == set(v) and all(h.last[2][kk] is v[kk] for kk in v))
+                                                                     if isinstance(v, dict) else (len(h.last[1]) == 1 and h.last[1][0] is v and h.last[2] == {}))
+            c.oblige('from_actions/each-action-is-replayed-with-its-own-value', bool(good), 'invariant')
+            c.oblige('from_actions/invariant(calls replayed = actions consumed)/preserve', h.count == st['k'] + 1, 'invariant')
+
+    def loop_havoc(n, loc):
+        c = ctx()
+        k = c.fresh('consumed')
+        c.assume(k >= 0)
+        st['k'] = k
+        loc['hj'].count = k          # invariant assumed: as many calls replayed as actions consumed
+        loc['hj'].last = None
+        return (Tok('a'), Tok('v'), None)
+
+    def loop_more(n):
+        c = ctx()
+        return c.decide(c.fresh('more_actions', 'bool'))
+
+    def loop_item(n, it):
+        c = ctx()
+        want = st['arg'] if st['arg'] is not None else st['recv'].actions
+        c.oblige('from_actions/iterates-over-the-given-log-or-its-own', it is want, 'post')
+        a = Tok('name')
+        v = {'k': Tok('value')} if c.choose(2, 'value_kind') == 0 else Tok('value')
+        st['item'] = (a, v)
+        return (a, v)
+    raw = hj.HighJumpCompetition.__dict__['from_actions']
+    f = instrument(raw, shadows={'getattr': s_getattr, '__loop_inv': loop_inv, '__loop_havoc': loop_havoc, '__loop_more': loop_more, '__loop_item': loop_item},
+                   loop_cuts={1: dict(havoc=['a', 'v', 'm'], kind='for')})
+
+    class Recv(object):
+        pass
+
+    def run():
+        c = ctx()
+        Spy.made = []
+        r = Recv()
+        r.__class__ = type('R', (object,), {})
+        recv = type('Recv', (object,), {'__class__': property(lambda self: Spy), 'actions': Tok('own-log')})()
+        c.called = True
+        which = c.choose(2, 'explicit_or_own_log')
+        st['arg'] = Tok('given-log') if which == 0 else None
+        st['recv'] = recv
+        return f.fn(recv, st['arg'])
+
+    def post(p, c):
+        if p.outcome == 'cut':
+            return
+        if p.outcome == 'exc':
+            c.oblige('from_actions/no-exception', False, 'raises', meta=dict(exc=type(p.value).__name__, msg=str(p.value)[:80]))
+            return
+        h = p.value
+        ok = isinstance(h, Spy) and len(Spy.made) == 1 and h is Spy.made[0]
+        c.oblige('from_actions/returns-the-replayed-instance', bool(ok), 'post')
+        # the loop was left because the log was exhausted, not by a break / early return: then calls replayed = consumed = len(log)
+        left_early = any(isinstance(n, tuple) and n and n[0] == 'early' for n in c.notes)
+        c.oblige('from_actions/every-logged-action-is-replayed', ok and h.last is None and not left_early, 'post')
+
+    res = U.verify('from_actions[any log]', run, post, want_sample=True)
+    res['fns'] = [f.describe()]
+    for x in res['results']:
+        x['ctx'] = dict(m='from_actions', N=0, state='scheduled', bi=None)
+    return res
+
+
 def _work(job):
+    if job[0] == 'fromactions':
+        r = unit_from_actions(job[1])
+        r['job'] = job
+        return r
     if job[0] == 'swap':
         r = unit_swap(job[1])
         r['job'] = job
@@ -263,7 +387,8 @@ def main(tier, seed):
     run.explanation = __doc__
     run.assume('pyvc proxies/rewrites; heap = real objects with proxy fields', 'z3 soundness', 'N athletes fixed per instance',
                'induction over the log: replay equality follows from log exactness + per-call determinism (meta-argument)',
-               'card round trip, from_actions/from_matrix themselves and the interleaving clause are checked by the bounded stand-in only')
+               'the card round trip (to_matrix / from_matrix) is checked by the bounded stand-in only; from_actions is under contract for a log of any length '
+               '(loop cut, ghost counter); the interleaving clause rests on the swap lemma over the rule machine')
     J = []
     for N in (1, 2):
         for state in SP.STATES:
@@ -275,7 +400,7 @@ def main(tier, seed):
                         J.append(('trial', (m, N, state, bi, perm)))
     for perm in HC.perms(3):
         J.append(('trial', ('failed', 3, 'started', 1, perm)))
-    J += [('swap', (2,)), ('swap', (3,))]
+    J += [('swap', (2,)), ('swap', (3,)), ('fromactions', ())]
     n_each = 400 if tier == 'quick' else 6000
     J += [('standin', (seed * 1000 + i, n_each // 8, N)) for i in range(8) for N in (2, 3)]
     results = report.pool_map(_work, J)
@@ -297,6 +422,24 @@ def main(tier, seed):
 
         def on_refuted(r, _res):
             key = r['name']
+            if key.startswith('from_actions/'):
+                # the contract of from_actions failed: look for a competition prefix on the real class whose replay differs
+                if key not in cache:
+                    w = None
+                    for N in (2, 3):
+                        n_, bad_ = standin_chunk((seed * 77 + N, 150, N))
+                        if bad_:
+                            w = bad_[0]
+                            break
+                    cache[key] = w
+                w = cache[key]
+                if w:
+                    run.violation(key, dict(call='%d athletes, history %r' % (w[0], w[1]), observed=w[2], detail=w[3], input=['prefix', w[0], w[1]],
+                                            unit=_res['unit'], solver='z3 sat', meta=r.get('meta')), True)
+                else:
+                    run.violation(key, dict(call='from_actions (contract)', observed='no differing replay among 300 random prefixes', unit=_res['unit'],
+                                            solver='z3 sat', meta=r.get('meta'), input=None), False)
+                return
             if key not in cache:
                 cache[key] = C02.concretise(r)
             rep, bad = cache[key]
